@@ -2335,6 +2335,232 @@ def _expand_get_none_test(repo, fi, known_assigns: set[str]) -> list[str]:
     return done
 
 
+# ------------------------------------------------------------------------------------------------ (u) new named constants, new defaulted parameters
+
+def _literal(e) -> bool:
+    if isinstance(e, ast.Constant):
+        return True
+    if isinstance(e, ast.UnaryOp) and isinstance(e.op, (ast.USub, ast.UAdd, ast.Invert)) and isinstance(e.operand, ast.Constant):
+        return True
+    if isinstance(e, (ast.Tuple, ast.List)) and all(isinstance(x, ast.Constant) for x in e.elts) and len(e.elts) <= 8:
+        return True          # (a flat tuple of literals; a table of rows is left to the table rewrites)
+    if isinstance(e, ast.BinOp) and _literal(e.left) and _literal(e.right):
+        return True
+    return False
+
+
+def _new_literal_constants(repo, ref) -> dict:
+    """(module name, NAME) -> literal value, and (class qualname, NAME) -> literal value, for module- / class-level names the reviewed
+    tree does not have, bound exactly once to a literal, and never rebound or mutated anywhere."""
+    out = {}
+    for m in repo.modules.values():
+        known = set(ref.get('modules', {}).get(m.name, [])) if m.name in ref.get('modules', {}) else None
+        if known is None:
+            continue
+        for name, vals in m.assigns.items():
+            if name in known or len(vals) != 1 or not _literal(vals[0]) or not name.isupper() and not name.startswith('_'):
+                continue
+            out[('m', m.name, name)] = vals[0]
+    for q, ci in repo.classes.items():
+        rc = ref.get('classes', {}).get(q)
+        if rc is None or 'consts' not in rc:
+            continue
+        if any('Enum' in _u(b) for b in ci.node.bases):
+            continue
+        for name, val in ci.attrs.items():
+            if name in rc['consts'] or val is None or not _literal(val):
+                continue
+            out[('c', q, name)] = val
+    # never stored to from code
+    if out:
+        names = {k[2] for k in out}
+        for f in repo.functions.values():
+            for n in ast.walk(f.node):
+                if isinstance(n, (ast.Global, ast.Nonlocal)) and set(n.names) & names:
+                    for k in [k for k in out if k[2] in n.names]:
+                        out.pop(k, None)
+                if isinstance(n, ast.Attribute) and isinstance(n.ctx, ast.Store) and n.attr in names:
+                    for k in [k for k in out if k[2] == n.attr]:
+                        out.pop(k, None)
+    return out
+
+
+class _FoldFString(ast.NodeTransformer):
+    """f'{<str literal>}(...)' -> the literal text merged into the neighbouring text."""
+    def visit_JoinedStr(self, node):
+        self.generic_visit(node)
+        vals = []
+        for v in node.values:
+            if isinstance(v, ast.FormattedValue) and isinstance(v.value, ast.Constant) and isinstance(v.value.value, str) and v.conversion == -1 and v.format_spec is None:
+                v = ast.copy_location(ast.Constant(value=v.value.value), v)
+            if isinstance(v, ast.Constant) and vals and isinstance(vals[-1], ast.Constant):
+                vals[-1] = ast.copy_location(ast.Constant(value=vals[-1].value + v.value), vals[-1])
+            else:
+                vals.append(v)
+        if len(vals) == 1 and isinstance(vals[0], ast.Constant):
+            return vals[0]
+        node.values = vals
+        return node
+
+
+class _ConstNames(ast.NodeTransformer):
+    """A new named literal constant is its literal wherever the name is read (module constants by name in their module and where
+    imported by name; class constants as Class.NAME / self.NAME / cls.NAME)."""
+    def __init__(self, repo, fi, consts):
+        self.repo, self.fi, self.consts, self.done = repo, fi, consts, []
+        self.locals = local_names(fi.node) | {a.arg for a in fi.node.args.args + fi.node.args.kwonlyargs + fi.node.args.posonlyargs}
+
+    def visit_Name(self, node):
+        if not isinstance(node.ctx, ast.Load) or node.id in self.locals:
+            return node
+        m = self.fi.module
+        v = self.consts.get(('m', m.name, node.id))
+        if v is None and node.id not in m.assigns:
+            imp = m.imports.get(node.id)
+            if imp is not None and imp[0] == 'symbol':
+                v = self.consts.get(('m', imp[1], imp[2]))
+        if v is not None:
+            self.done.append(node.id)
+            return ast.copy_location(copy.deepcopy(v), node)
+        return node
+
+    def visit_Attribute(self, node):
+        self.generic_visit(node)
+        if isinstance(node.ctx, ast.Load) and isinstance(node.value, ast.Name):
+            base = node.value.id
+            cq = None
+            if base in ('self', 'cls') and self.fi.cls is not None:
+                for c in self.fi.cls.mro():
+                    if ('c', c.qualname, node.attr) in self.consts:
+                        cq = c.qualname
+                        break
+            elif base in self.fi.module.classes:
+                cq = self.fi.module.classes[base].qualname
+            else:
+                imp = self.fi.module.imports.get(base)
+                if imp is not None and imp[0] == 'symbol':
+                    cq = f'{imp[1]}.{imp[2]}'
+                elif imp is not None and imp[0] == 'module':
+                    v = self.consts.get(('m', imp[1], node.attr))
+                    if v is not None:
+                        self.done.append(f'{base}.{node.attr}')
+                        return ast.copy_location(copy.deepcopy(v), node)
+            if cq is not None and ('c', cq, node.attr) in self.consts:
+                self.done.append(f'{base}.{node.attr}')
+                return ast.copy_location(copy.deepcopy(self.consts[('c', cq, node.attr)]), node)
+        return node
+
+
+def _new_default_params(repo, fi, ref_bindings: list[str]) -> dict:
+    """Parameters the reviewed function does not have, with a literal (or module-constant) default, that no call in the
+    repository passes: inside the function they are their default."""
+    a = fi.node.args
+    allp = a.posonlyargs + a.args
+    defaults = dict(zip([p.arg for p in allp[len(allp) - len(a.defaults):]], a.defaults))
+    for p, d in zip(a.kwonlyargs, a.kw_defaults):
+        if d is not None:
+            defaults[p.arg] = d
+    new = {p: d for p, d in defaults.items() if p not in ref_bindings and (_literal(d) or isinstance(d, (ast.Name, ast.Attribute)))}
+    if not new:
+        return {}
+    # positions of the new positional parameters: a call with that many positional arguments passes them
+    pos = {p.arg: i - (1 if fi.kind in ('method', 'classmethod', 'property') and fi.cls is not None else 0) for i, p in enumerate(allp)}
+    calls = []
+    if fi.name == '__init__' and fi.cls is not None:
+        family = [fi.cls] + fi.cls.all_subclasses()
+        ctor_names = {c.name for c in family if c is fi.cls or '__init__' not in c.methods}
+        for m in repo.modules.values():
+            for c in ast.walk(m.tree):
+                if isinstance(c, ast.Call):
+                    fname = c.func.attr if isinstance(c.func, ast.Attribute) else c.func.id if isinstance(c.func, ast.Name) else None
+                    if fname in ctor_names:
+                        calls.append(c)
+        for f in repo.functions.values():
+            if f.cls is not None and f.cls in family and f.cls is not fi.cls:
+                for c in ast.walk(f.node):
+                    if isinstance(c, ast.Call) and isinstance(c.func, ast.Attribute) and c.func.attr == '__init__':
+                        calls.append(c)
+    else:
+        for m in repo.modules.values():
+            for c in ast.walk(m.tree):
+                if isinstance(c, ast.Call):
+                    fname = c.func.attr if isinstance(c.func, ast.Attribute) else c.func.id if isinstance(c.func, ast.Name) else None
+                    if fname == fi.name:
+                        calls.append(c)
+    for c in calls:
+        if any(k.arg is None for k in c.keywords) or any(isinstance(x, ast.Starred) for x in c.args):
+            return {}
+        for k in c.keywords:
+            new.pop(k.arg, None)
+        for p in list(new):
+            if p in pos and len(c.args) > pos[p]:
+                new.pop(p, None)
+    return new
+
+
+# ------------------------------------------------------------------------------------------------ (v) lookups in new constant dictionaries
+
+def _new_const_dict(repo, fi, e, ref):
+    """The dict literal behind `NAME` / `Class.NAME` / `self.NAME` when that is a module- or class-level dictionary of atoms the
+    reviewed tree does not have."""
+    m = fi.module
+    val = None
+    if isinstance(e, ast.Name):
+        if e.id in ref.get('modules', {}).get(m.name, [e.id]) or e.id in local_names(fi.node):
+            return None
+        vals = m.assigns.get(e.id) or []
+        val = vals[0] if len(vals) == 1 else None
+    elif isinstance(e, ast.Attribute) and isinstance(e.value, ast.Name):
+        owner = None
+        if e.value.id in ('self', 'cls') and fi.cls is not None:
+            owner = next((c for c in fi.cls.mro() if e.attr in c.attrs), None)
+        elif e.value.id in m.classes and e.attr in m.classes[e.value.id].attrs:
+            owner = m.classes[e.value.id]
+        if owner is None or e.attr in ref.get('classes', {}).get(owner.qualname, {}).get('consts', [e.attr]):
+            return None
+        val = owner.attrs.get(e.attr)
+    if isinstance(val, ast.Dict) and val.keys and len(val.keys) <= 16 and all(k is not None and _atom(k) for k in val.keys) and all(_atom(v) for v in val.values):
+        return val
+    return None
+
+
+def _unroll_dict_lookups(repo, fi, ref) -> list[str]:
+    """`return T.get(x, d)` / `return T.get(x)` / `return T[x]` for a new constant dictionary T -> `if x == k1: return v1` ... and the
+    default (or the KeyError) last."""
+    done = []
+    for body in list(_bodies(fi.node)):
+        i = 0
+        while i < len(body):
+            st = body[i]
+            i += 1
+            if not (isinstance(st, ast.Return) and st.value is not None):
+                continue
+            v = st.value
+            table = key = dflt = None
+            if isinstance(v, ast.Call) and isinstance(v.func, ast.Attribute) and v.func.attr == 'get' and 1 <= len(v.args) <= 2 and not v.keywords:
+                table, key = v.func.value, v.args[0]
+                dflt = v.args[1] if len(v.args) == 2 else ast.Constant(value=None)
+            elif isinstance(v, ast.Subscript) and isinstance(v.ctx, ast.Load):
+                table, key = v.value, v.slice
+            if table is None or not _is_pure(key) or (dflt is not None and not _is_pure(dflt)):
+                continue
+            d = _new_const_dict(repo, fi, table, ref)
+            if d is None:
+                continue
+            last = ast.Return(value=dflt) if dflt is not None else \
+                ast.Raise(exc=ast.Call(func=ast.Name(id='KeyError', ctx=ast.Load()), args=[copy.deepcopy(key)], keywords=[]), cause=None)
+            chain = [last]
+            for k, val in reversed(list(zip(d.keys, d.values))):
+                test = ast.Compare(left=copy.deepcopy(key), ops=[ast.Eq()], comparators=[copy.deepcopy(k)])
+                chain = [ast.If(test=test, body=[ast.Return(value=copy.deepcopy(val))], orelse=chain)]
+            for n in ast.walk(chain[0]):
+                if isinstance(n, (ast.stmt, ast.expr)):
+                    ast.copy_location(n, st)
+            body[i - 1] = chain[0]
+            done.append(_u(st)[:70])
+    return done
+
+
 # ------------------------------------------------------------------------------------------------ (g) parallel assignments
 
 def _split_parallel(fn: ast.FunctionDef, known_stmts: set[str]) -> list[str]:
@@ -2582,6 +2808,11 @@ def normalise(repo) -> dict:
     except Exception as e:
         records = {}
         log.setdefault('#errors', []).append(f'records: {type(e).__name__}: {e}')
+    try:
+        new_consts = _new_literal_constants(repo, ref)
+    except Exception as e:
+        new_consts = {}
+        log.setdefault('#errors', []).append(f'named constants: {type(e).__name__}: {e}')
     inlined_into = {q for q, v in log.items() if any(x.startswith('inlined helper call') for x in v)}
     for q, fi in repo.functions.items():
         if q in inlined_into and q in ref_funcs:
@@ -2599,6 +2830,20 @@ def normalise(repo) -> dict:
         if known_locals is None:
             continue          # a function the rules have never seen: nothing refers to its locals, leave it as written
         try:
+            if new_consts:
+                cn = _ConstNames(repo, fi, new_consts)
+                cn.visit(fi.node)
+                if cn.done:
+                    _FoldFString().visit(fi.node)
+                    log.setdefault(q, []).append(f'new named constants read as their literals: {", ".join(sorted(set(cn.done)))}')
+            nd = _new_default_params(repo, fi, ref_funcs[key].get('bindings', []))
+            stored_names = {n.id for n in ast.walk(fi.node) if isinstance(n, ast.Name) and isinstance(n.ctx, ast.Store)}
+            nd = {p_: d_ for p_, d_ in nd.items() if p_ not in stored_names}
+            if nd:
+                wrapper_ = ast.Module(body=fi.node.body, type_ignores=[])
+                wrapper_ = _ConstFold().visit(_Subst(nd).visit(wrapper_))
+                fi.node.body = _fold_if_statements(wrapper_.body) or [ast.Pass()]
+                log.setdefault(q, []).append(f'new parameters no caller passes read as their defaults: {", ".join(sorted(nd))}')
             known_asg = set(ref_funcs[key].get('assigns', []))
             if known_asg:
                 for body_ in list(_bodies(fi.node)):
@@ -2654,6 +2899,9 @@ def normalise(repo) -> dict:
             d = _expand_get_none_test(repo, fi, set(ref_funcs[key].get('assigns', [])))
             if d:
                 log.setdefault(q, []).extend(f'get + None test -> membership test: {x}' for x in d)
+            d = _unroll_dict_lookups(repo, fi, ref)
+            if d:
+                log.setdefault(q, []).extend(f'lookup in a new constant dictionary -> if-chain: {x}' for x in d)
             d = _unroll_tables(repo, fi, ref)
             if d:
                 log.setdefault(q, []).extend(f'loop over a new constant table unrolled: {x}' for x in d)
